@@ -55,8 +55,8 @@ def main():
                  evidence_file=f"evidence/{prop}.json",
                  replay_cmd_template=f"bin/vcheck {prop} --replay {{path}}",
                  engine="verus" if verus else "kani",
-                 level_claimed=dict(category=level, text=u.get("level_text") or u["explanation"][:900], design_ref=u.get("design_ref", "DESIGN.md §4 " + prop)),
-                 level_note=u.get("level_note") or ("Trusted/assumed: " + "; ".join(u.get("assumptions", []))[:1500]),
+                 level_claimed=dict(category=level, text=u.get("level_text") or u["explanation"], design_ref=u.get("design_ref", "DESIGN.md §4 " + prop)),
+                 level_note=u.get("level_note") or ("Trusted/assumed: " + "; ".join(u.get("assumptions", []))),
                  technique=tech)
         checks.append(c)
     claimed = {c["property_id"] for c in checks}
